@@ -143,6 +143,8 @@ def rule_status(chk, db, cfgname, rid):
 
 
 def implies_commutative(cond_text):
+    if 'manifold::OpType::Subtract' in cond_text or '!=' in cond_text:
+        return False
     return 'manifold::OpType::Add' in cond_text or 'manifold::OpType::Intersect' in cond_text
 
 
